@@ -19,7 +19,7 @@ def c16(ck):
     if not ok:
         ck.tie_broken.append("harness does not build: " + "\n".join(log.strip().splitlines()[-15:]))
         return
-    ck.trusted = ["Coq 8.16.1 kernel", "tr/addr.py (prefix tables of varlink_connect / Listener::new, activation_listener constants, the environment set by varlink_exec)",
+    ck.trusted = ["Coq 8.16.1 kernel", "tr/addr.py (prefix tables of varlink_connect / Listener::new, activation_listener constants, the environment set by varlink_exec; whether listen() forces its listening descriptor to blocking mode and when Listener::accept waits in select)",
                   "harness/src/bin/h_addr.rs, h_actsrv.rs", "modelled not verified: fork/exec, descriptor passing, sockets (decided by running the transports)"]
     ck.rule = ("transport in {unix path, unix path;mode=..., unix:@abstract, tcp:127.0.0.1:port, tcp:[::1]:port, tcp:localhost:port, with_activate(cmd), with_bridge(cmd), activation by a foreign activator passing a blocking or an O_NONBLOCK listening socket} x request sequences of C01; environment matrix for "
                "LISTEN_FDS / LISTEN_PID / LISTEN_FDNAMES (absent, wrong pid, garbage, 0/1/several descriptors, named / unnamed) against a probing server process; address strings from a "
